@@ -22,8 +22,9 @@ from .. import shapes
 from ..core import Stats, Unsupported, Violation, explore
 from ..sym import SymBool, sym_var
 
-if "/repo" not in sys.path:
-    sys.path.insert(0, "/repo")
+_REPO = __import__("os").environ.get("KIO_REPO", "/repo")
+if _REPO not in sys.path:
+    sys.path.insert(0, _REPO)
 
 I63 = (-(2**63), 2**63)
 REQ = {0: "kio.schema.request_header.v0.header", 1: "kio.schema.request_header.v1.header", 2: "kio.schema.request_header.v2.header"}
